@@ -1,8 +1,9 @@
 (* C16 driver.
-   R <mode> <n> <retry> <idem 0|1> <carry 0|1> { <outs|-> <idem -|0|1> <retry -|int> <retried int> }*
+   R <mode> <n> <retry> <idem 0|1> <carry 0|1> <min ns> <max ns> { <outs|-> <idem -|0|1> <retry -|int> <retried int> }*
        mode: failover failtry failfast default;  outs: letters O E P, attempt k carries payload k,
        every attempt after the script fails with error 999
-     -> per call "urls=<i,..> res=<R|E|P><k>|X retried=<n> url=<i> nf=<n> ns=<n>" joined by " | ",
+     -> per call "urls=<i,..> res=<R|E|P><k>|X retried=<n> url=<i> nf=<n> ns=<n> iv=<ns,..>" joined by " | "
+        (iv = the intervals OnRetry returned, oldest first),
         then " lit=<bool>" (the literal recursion with fuel budget+1 gave the same observations)
    F <outs> <order i,j,..|->   forking: server i carries payload i
      -> "res=<..|none> invoked=<sorted> lts=<bool>"
@@ -30,16 +31,18 @@ let commas f l = String.concat "," (Stdlib.List.map f l)
 
 let string_of_obs (o : Cluster.obs) =
   let s = o.Cluster.fin in
-  Printf.sprintf "urls=%s res=%s retried=%s url=%s nf=%d ns=%d"
+  Printf.sprintf "urls=%s res=%s retried=%s url=%s nf=%d ns=%d iv=%s"
     (commas string_of_z o.Cluster.attempts) (string_of_result o.Cluster.res)
     (string_of_z s.Cluster.retried) (string_of_z s.Cluster.url)
     (int_of_nat s.Cluster.nfail) (int_of_nat s.Cluster.nsucc)
+    (commas string_of_z (Stdlib.List.rev s.Cluster.ivs))
 
-let run_retry mode n retry idem carry rest =
+let run_retry mode n retry idem carry mn mx rest =
   let r = z_of_string retry and i = (idem = "1") in
+  let mn = z_of_string mn and mx = z_of_string mx in
   let c = match mode with
-    | "failover" -> Cluster.coq_new (Cluster.failover_config r i)
-    | "failtry" -> Cluster.coq_new (Cluster.failtry_config r i)
+    | "failover" -> Cluster.coq_new (Cluster.failover_config r i mn mx)
+    | "failtry" -> Cluster.coq_new (Cluster.failtry_config r i mn mx)
     | "failfast" -> Cluster.coq_new (Cluster.failfast_config r i)
     | "default" -> Cluster.new_default
     | m -> failwith ("mode " ^ m) in
@@ -100,7 +103,7 @@ let run_pass outs =
 
 let run line =
   match split_ws line with
-  | "R" :: mode :: n :: retry :: idem :: carry :: rest -> run_retry mode n retry idem carry rest
+  | "R" :: mode :: n :: retry :: idem :: carry :: mn :: mx :: rest -> run_retry mode n retry idem carry mn mx rest
   | [ "F0"; outs ] -> run_pass outs
   | [ "B0"; outs ] -> run_pass outs
   | [ "F"; outs; order ] -> run_fork outs order
